@@ -36,6 +36,12 @@ Proof.
   destruct (y =? x) eqn:Eb; [apply Z.eqb_eq in Eb; congruence|reflexivity].
 Qed.
 
+Lemma hd_uncons s b : hd_byte s = Some b -> exists s', uncons s = Some (b, s').
+Proof.
+  destruct s as [|[b0 c] t]; cbn [hd_byte uncons]; [discriminate|]. intros H; inversion H; subst.
+  destruct (c <=? 1); eexists; reflexivity.
+Qed.
+
 (* a line that starts with "FU" *)
 Definition starts_FU (s : rle) : Prop := exists s1, uncons s = Some (70, s1) /\ hd_byte s1 = Some 85.
 
@@ -55,49 +61,66 @@ Proof.
   - unfold sub_func, T_INLINE_ORIGIN_SP, T_INLINE_SP.
     rewrite !(tag_hd_ne 73 70 _ s H0) by lia.
     (* the line is not a line record: "F" is one hex digit, "U" is neither a hex digit nor a blank *)
-    unfold sub_line_data, hex64sp, hex_str. cbn [digits]. rewrite U. cbn [hexval]. cbn.
+    destruct (hd_uncons s1 85 H1) as [s2 U2].
+    assert (Hx : hex_str 16 s = Some (15, s1)).
+    { unfold hex_str. change 16%nat with (S (S 14)). cbn [digits]. rewrite U. change (hexval 70) with (Some 15).
+      cbn iota beta. rewrite U2. change (hexval 85) with (@None Z). cbn iota beta. reflexivity. }
+    unfold sub_line_data, hex64sp. rewrite Hx. unfold osp.
     destruct s1 as [|[b c] t]; [discriminate|]. cbn [hd_byte] in H1. inversion H1; subst b.
-    cbn [uncons]. destruct (c <=? 1); cbn; reflexivity.
+    cbn [space1]. change (is_sp 85) with false. cbn iota. reflexivity.
   - unfold sub_cfi, hdr, T_STACK_CFI. rewrite (tag_hd_ne 83 70 _ s H0) by lia. reflexivity.
 Qed.
 
-(* which parser of the alternation produced a FUNC item *)
-Lemma line_top_func s f : line_top s = Some (IFunc f) -> p_func s = POk (IFunc f).
+(* which parser of the alternation produced the item *)
+Definition kind_ok (s : rle) (it : item) : Prop :=
+  match it with
+  | IFunc _ => p_func s = POk it
+  | ICfiInit _ => p_stack_cfi_init s = POk it
+  | IWin _ => p_stack_win s = POk it
+  | _ => True
+  end.
+
+Lemma line_top_kind s it : line_top s = Some it -> kind_ok s it.
 Proof.
   unfold line_top, alt. intros H.
   destruct (p_info_url s) eqn:E1; try discriminate.
-  2:{ exfalso. unfold p_info_url, cutp in E1. destruct (hdr T_INFO_URL s); [|discriminate].
-      destruct (name_eol r); inversion E1; subst; discriminate. }
+  2:{ inversion H; subst a. unfold p_info_url, cutp in E1. destruct (hdr T_INFO_URL s); [|discriminate].
+      destruct (name_eol r); inversion E1; subst; exact I. }
   destruct (p_info s) eqn:E2; try discriminate.
-  2:{ exfalso. unfold p_info, cutp, guard in E2. destruct (hdr T_INFO s); [|discriminate].
-      destruct (raw_eol r); inversion E2; subst; discriminate. }
+  2:{ inversion H; subst a. unfold p_info, cutp, guard in E2. destruct (hdr T_INFO s); [|discriminate].
+      destruct (raw_eol r); inversion E2; subst; exact I. }
   destruct (p_file s) eqn:E3; try discriminate.
-  2:{ exfalso. unfold p_file, cutp in E3. destruct (hdr T_FILE s); [|discriminate].
-      destruct (id_name r) as [[? ?]|]; inversion E3; subst; discriminate. }
+  2:{ inversion H; subst a. unfold p_file, cutp in E3. destruct (hdr T_FILE s); [|discriminate].
+      destruct (id_name r) as [[? ?]|]; inversion E3; subst; exact I. }
   destruct (p_inline_origin s) eqn:E4; try discriminate.
-  2:{ exfalso. unfold p_inline_origin, cutp in E4. destruct (hdr T_INLINE_ORIGIN s); [|discriminate].
-      destruct (id_name r) as [[? ?]|]; inversion E4; subst; discriminate. }
+  2:{ inversion H; subst a. unfold p_inline_origin, cutp in E4. destruct (hdr T_INLINE_ORIGIN s); [|discriminate].
+      destruct (id_name r) as [[? ?]|]; inversion E4; subst; exact I. }
   destruct (p_public s) eqn:E5; try discriminate.
-  2:{ exfalso. unfold p_public, cutp in E5. cbv zeta in E5. destruct (hdr T_PUBLIC s); [|discriminate].
+  2:{ inversion H; subst a. unfold p_public, cutp in E5. cbv zeta in E5. destruct (hdr T_PUBLIC s); [|discriminate].
       destruct (hex64sp _) as [[? ?]|]; [|discriminate]. destruct (hex32sp _) as [[? ?]|]; [|discriminate].
-      destruct (name_eol _); inversion E5; subst; discriminate. }
+      destruct (name_eol _); inversion E5; subst; exact I. }
   destruct (p_func s) eqn:E6; try discriminate.
-  { (* p_func gave Error: a later parser answered, none of them builds a FUNC item *)
-    exfalso.
-    destruct (p_stack_win s) eqn:E7; try discriminate.
-    2:{ unfold p_stack_win, cutp in E7. destruct (hdr T_STACK_WIN s); [|discriminate].
-        repeat match type of E7 with context [match ?e with _ => _ end] => destruct e as [[? ?]|]; try discriminate end.
-        destruct (name_eol _); inversion E7; subst; discriminate. }
-    destruct (p_stack_cfi_init s) eqn:E8; try discriminate.
-    2:{ unfold p_stack_cfi_init, cutp in E8. destruct (hdr T_STACK_CFI_INIT s); [|discriminate].
-        destruct (hex64sp _) as [[? ?]|]; [|discriminate]. destruct (hex32sp _) as [[? ?]|]; [|discriminate].
-        destruct (name_eol _); inversion E8; subst; discriminate. }
-    destruct (p_module s) eqn:E9; try discriminate.
-    unfold p_module, cutp in E9. destruct (hdr T_MODULE s); [|discriminate].
-    destruct (nonspace_sp _); [|discriminate]. destruct (nonspace_sp _); [|discriminate].
-    destruct (hexdigit1_sp _) as [[? ?]|]; [|discriminate]. destruct (name_eol _); inversion E9; subst; discriminate. }
-  inversion H; subst. reflexivity.
+  2:{ inversion H; subst a. pose proof E6 as E6'. unfold p_func, cutp in E6'. cbv zeta in E6'.
+      destruct (hdr T_FUNC s); [|discriminate].
+      destruct (hex64sp _) as [[? ?]|]; [|discriminate]. destruct (hex32sp _) as [[? ?]|]; [|discriminate].
+      destruct (hex32sp _) as [[? ?]|]; [|discriminate].
+      destruct (name_eol _); inversion E6'; subst it. exact E6. }
+  destruct (p_stack_win s) eqn:E7; try discriminate.
+  2:{ inversion H; subst a. pose proof E7 as E7'. unfold p_stack_win, cutp in E7'. destruct (hdr T_STACK_WIN s); [|discriminate].
+      repeat match type of E7' with context [match ?e with _ => _ end] => destruct e as [[? ?]|]; try discriminate end.
+      destruct (name_eol _); inversion E7'; subst it. exact E7. }
+  destruct (p_stack_cfi_init s) eqn:E8; try discriminate.
+  2:{ inversion H; subst a. pose proof E8 as E8'. unfold p_stack_cfi_init, cutp in E8'. destruct (hdr T_STACK_CFI_INIT s); [|discriminate].
+      destruct (hex64sp _) as [[? ?]|]; [|discriminate]. destruct (hex32sp _) as [[? ?]|]; [|discriminate].
+      destruct (name_eol _); inversion E8'; subst it. exact E8. }
+  destruct (p_module s) eqn:E9; try discriminate.
+  inversion H; subst a. unfold p_module, cutp in E9. destruct (hdr T_MODULE s); [|discriminate].
+  destruct (nonspace_sp _); [|discriminate]. destruct (nonspace_sp _); [|discriminate].
+  destruct (hexdigit1_sp _) as [[? ?]|]; [|discriminate]. destruct (name_eol _); inversion E9; subst; exact I.
 Qed.
+
+Lemma line_top_func s f : line_top s = Some (IFunc f) -> p_func s = POk (IFunc f).
+Proof. intros H. exact (line_top_kind s _ H). Qed.
 
 Lemma func_line_is_top s f : line_top s = Some (IFunc f) ->
   eol s = false /\ sub_func s = None /\ sub_cfi s = None.
